@@ -72,7 +72,9 @@ def random_case(draw):
     from soundevent import data  # noqa: F401
 
     nterm = draw(st.integers(1, 5))
-    terms = [[draw(st.sampled_from(["n1", "n2", "n3"])), draw(st.sampled_from(["L1", "L2", "L3"]))] for _ in range(nterm)]
+    # "stub" = the key-only term that data.term_from_key(label) makes (what Tag(key=...) and an AOEF reload produce): it shares its
+    # label with fully specified terms of the same label but is a different term
+    terms = [[draw(st.sampled_from(["n1", "n2", "n3", "stub"])), draw(st.sampled_from(["L1", "L2", "L3"]))] for _ in range(nterm)]
     cand = [[draw(st.integers(0, nterm - 1)), draw(st.sampled_from(["a", "b", "c", ""]))] for _ in range(draw(st.integers(1, 14)))]
     nv = draw(st.integers(0, min(12, len(cand))))
     tags = draw(st.lists(st.integers(0, len(cand) - 1), min_size=0, max_size=10))
@@ -191,7 +193,7 @@ def check_small(spec, ctx):
 def check_random(spec, ctx):
     from soundevent import data
 
-    terms = [data.Term(name=f"ns:{n}", label=l, definition="d") for n, l in spec["terms"]]
+    terms = [data.term_from_key(l) if n == "stub" else data.Term(name=f"ns:{n}", label=l, definition="d") for n, l in spec["terms"]]
     cand = [data.Tag(term=copy.deepcopy(terms[i]) if k % 2 else terms[i], value=v) for k, (i, v) in enumerate(spec["cand"])]
     vocab = []
     for t in cand:
@@ -225,6 +227,11 @@ def term_extras(draw):
     b = dict(a)
     for k in draw(st.lists(st.sampled_from(sorted(TERM_EXTRA)), min_size=0, max_size=2, unique=True)):
         b[k] = draw(st.sampled_from(TERM_EXTRA[k]))
+    # additional attributes (Term allows extras): the same attributes given in another keyword order are the same term
+    if draw(st.integers(0, 2)) == 0:
+        xs = [["vocabulary", draw(st.sampled_from(["dwc", "ac"]))], ["version", draw(st.sampled_from(["1", "2"]))], ["status", "recommended"]][: draw(st.integers(1, 3))]
+        a["__extras__"] = xs
+        b["__extras__"] = draw(st.sampled_from([xs, xs[::-1], xs[::-1], xs[:-1]]))
     return [a, b]
 
 
@@ -255,9 +262,10 @@ def _make(spec, side):
     cls = spec["cls"]
     uid = str(uuidlib.UUID(int=spec["uuid" + s]))
     extra = dict((spec.get("term_extra") or [{"definition": "d"}, {"definition": "d"}])[0 if side == "a" else 1])
-    if not set(extra) <= set(TERM_EXTRA) or "definition" not in extra:
+    more = extra.pop("__extras__", [])
+    if not set(extra) <= set(TERM_EXTRA) or "definition" not in extra or any(len(kv) != 2 or kv[0] not in ("vocabulary", "version", "status") for kv in more) or len({kv[0] for kv in more}) != len(more):
         raise ValueError("malformed spec")
-    term = data.Term(name=spec["name" + s], label=spec["label" + s], **{k: v for k, v in extra.items() if v is not None})
+    term = data.Term(name=spec["name" + s], label=spec["label" + s], **{k: v for k, v in extra.items() if v is not None}, **{k: v for k, v in more})
     f = spec["f" + side[-1]]
     if side == "b" and spec["int_b"] and float(int(f)) == f and abs(f) < 1e9:
         f = int(f)
